@@ -105,6 +105,8 @@ func runC15(c *Ctx) {
 
 	// --- dedup on stores without CRC ------------------------------------------------------------------
 	checkCRCOptional(c, "dedup.crc-optional")
+	checkWriterChannelsUnbuffered(c, "writer.channels-unbuffered")
+	checkNoReuseAfterSend(c, "join.no-reuse-after-send", concPkgs...)
 }
 
 type concGuard struct {
